@@ -249,6 +249,8 @@ func doPar(rq Req) Resp {
 }
 
 type syncer interface{ SyncPending() bool }
+
+func isLabelsz(d datastore.DataService) bool { return d.TypeName() == "labelsz" }
 type updater interface{ Updating() bool }
 type scaleUpdater interface{ AnyScaleUpdating() bool }
 
@@ -297,7 +299,13 @@ func doIdle(rq Req) Resp {
 	}
 	busy := func() bool {
 		for _, d := range ds {
-			if s, ok := d.(syncer); ok && s.SyncPending() {
+			// (labelsz has its own queue test; the embedded datastore.Data one reads the repo's subscription table
+			// without its lock, which races with an asynchronous instance deletion: use the locked variant)
+			if isLabelsz(d) {
+				if s, ok := d.(syncer); ok && s.SyncPending() {
+					return true
+				}
+			} else if datastore.VerifSyncPending(d) {
 				return true
 			}
 			if u, ok := d.(updater); ok && u.Updating() {
